@@ -98,7 +98,7 @@ def _range_str(r, keep_sites, canon):
     return canon(r, keep_sites)
 
 
-CONV = re.compile(r"(^|<.* as )std::convert::(From|Into)(<.*>)?(>)?::(from|into)$")
+CONV = re.compile(r"(^|<.* as )std::convert::(From|Into)(<.*>)?(>)?::(from|into)$|<impl (std::convert::)?(From|Into)<.*> for .*>::(from|into)$")
 
 
 def strip_conv(e):
